@@ -211,7 +211,8 @@ CHECKS = {
              "rules: map refinement for every history, no lost update in any state, a fresh commit visible to every reader, safe "
              "delete, every injected fault (non-2xx, non-JSON body, drop) ends in a documented error with the server unchanged, a "
              "request whose answer is lost after the server applied it ends in the transport error with the server in the state "
-             "the request produced and the client untouched (C16_lost_answer_add/commit/safe_delete), id "
+             "the request produced and the client untouched (C16_lost_answer_add/commit/safe_delete; through the module pool, which repeats only GET/HEAD after a read error: "
+             "C16_lost_answer_pool_add/commit/safe_delete/lookup - the SDK defect of a pool that re-sent PUT/DELETE was repaired), id "
              "quoting injective, revision-store key agreement across operations, routing for all legal ids (reserved '_' ids: "
              "refuted, open known finding). Tied by differential execution of the real client against a loopback fake with a "
              "second actor and fault injection.",
